@@ -4,7 +4,8 @@
    IDENTIFIER have the same extent, so only the text of a token is modelled, which is what the parser sees).
    Modelled: WS, both comment forms, IDENTIFIER / keywords, `$this` `$index` `$total`, NUMBER, STRING and
    DELIMITEDIDENTIFIER with the escape-first reading of `(ESC | .)*?`, every operator and punctuation literal.
-   NOT modelled (lex answers None and the judge says so): DATE / DATETIME / TIME literals (`@...`), and the
+   DATE / DATETIME / TIME literals are a small grammar of nested optional parts (`gram`, `run`).
+   NOT modelled (lex answers None and the judge says so): the
    fallback reading of a quoted token in which a backslash is taken as an ordinary character because the
    escape-first reading never finds a closing quote.  No proofs here. *)
 From FPV Require Import Base.Prelude.
@@ -79,6 +80,52 @@ Definition eq_follows (r : list N) : bool := match r with d :: _ => d =? 61 | []
 Definition is_single (c : N) : bool :=
   existsb (N.eqb c) [46; 91; 93; 43; 45; 42; 47; 38; 124; 61; 126; 40; 41; 123; 125; 37; 44].
 
+(* ---- DATE / DATETIME / TIME literals: nested optional parts, each all-or-nothing, taken greedily ------------------- *)
+(* a fixed-length pattern: one character class per position; all of it or nothing *)
+Fixpoint take_pat (ps : list (N -> bool)) (s : list N) : option (list N * list N) :=
+  match ps, s with
+  | [], _ => Some ([], s)
+  | p :: ps', c :: r => if p c then match take_pat ps' r with Some (l, r') => Some (c :: l, r') | None => None end else None
+  | _ :: _, [] => None
+  end.
+Inductive gram :=
+| GEnd
+| GDigits                                      (* any further digits, then the end *)
+| GReq (ps : list (N -> bool)) (k : gram)      (* the pattern, then k *)
+| GOpt (inner k : gram).                       (* inner if all of its required part is there, then k *)
+Fixpoint run (g : gram) (s : list N) : option (list N * list N) :=
+  match g with
+  | GEnd => Some ([], s)
+  | GDigits => Some (span is_digit s)
+  | GReq ps k => match take_pat ps s with
+                 | Some (l, r) => match run k r with Some (l2, r2) => Some (l ++ l2, r2) | None => None end
+                 | None => None
+                 end
+  | GOpt inner k => match run inner s with
+                    | Some (l, r) => match run k r with Some (l2, r2) => Some (l ++ l2, r2) | None => None end
+                    | None => run k s
+                    end
+  end.
+Definition is_c (x : N) (c : N) : bool := c =? x.
+Definition is_pm (c : N) : bool := (c =? 43) || (c =? 45).
+Definition dd := [is_digit; is_digit].
+(* TIMEFORMAT: dd (: dd (: dd (. d+)?)?)? *)
+Definition g_time (k : gram) : gram :=
+  GReq dd (GOpt (GReq (is_c 58 :: dd) (GOpt (GReq (is_c 58 :: dd) (GOpt (GReq [is_c 46; is_digit] GDigits) GEnd)) GEnd)) k).
+(* TIMEZONEOFFSETFORMAT: Z | (+|-) dd : dd *)
+Definition g_tz : gram := GOpt (GReq [is_c 90] GEnd) (GOpt (GReq (is_pm :: dd ++ is_c 58 :: dd) GEnd) GEnd).
+(* after `@`:  T TIMEFORMAT  |  dddd (- dd (- dd)?)? (T (TIMEFORMAT tz?)?)? *)
+Definition g_timelit : gram := GReq [is_c 84] (g_time GEnd).
+Definition g_datelit : gram :=
+  GReq [is_digit; is_digit; is_digit; is_digit]
+    (GOpt (GReq (is_c 45 :: dd) (GOpt (GReq (is_c 45 :: dd) GEnd) GEnd))
+      (GOpt (GReq [is_c 84] (GOpt (g_time g_tz) GEnd)) GEnd)).
+Definition scan_at (s : list N) : option (list N * list N) :=
+  match run g_timelit s with
+  | Some x => Some x
+  | None => run g_datelit s
+  end.
+
 (* one default-channel token: (text, rest); None = no lexer rule matches here (or not modelled) *)
 Definition scan (s : list N) : option (list N * list N) :=
   match s with
@@ -95,6 +142,8 @@ Definition scan (s : list N) : option (list N * list N) :=
       else Some (c :: a, b)
     else if (c =? 39) || (c =? 96) then
       match scan_q c false r with Some (a, b) => Some (c :: a, b) | None => None end
+    else if c =? 64 then
+      match scan_at r with Some (a, b) => Some (c :: a, b) | None => None end
     else if c =? 36 then
       match strip_prefix kw_this r with
       | Some b => Some (c :: kw_this, b)
@@ -143,9 +192,9 @@ Definition lobs := (option (list (list N)) * option (list (list N)) * bool * boo
 Definition toks_eqb := list_eqb (list_eqb N.eqb).
 Definition otoks_eqb (a b : option (list (list N))) : bool :=
   match a, b with Some x, Some y => toks_eqb x y | None, None => true | _, _ => false end.
-Definition unmodelled (s : list N) : bool := existsb (fun c => (c =? 64) || (c =? 92)) s.
-(* the model answers exactly what the generated lexer answers, except on the two unmodelled forms, where a model
-   None says nothing *)
+Definition unmodelled (s : list N) : bool := existsb (fun c => c =? 92) s.
+(* the model answers exactly what the generated lexer answers, except on the unmodelled form (a source with a
+   backslash on which the model fails), where a model None says nothing *)
 Definition agrees1 (s : list N) (o : option (list (list N))) : bool :=
   match lex_all s with
   | Some ts => otoks_eqb (Some ts) o
